@@ -65,7 +65,9 @@ func c10R1(c *Ctx, r *Report) {
 		hits := mustFlow(g, FlowSpec{
 			InitTrue: true,
 			Kill:     func(n ast.Node) bool { return nodeCallsPred(n, isTyped) != nil && !reported[n] },
-			Gate:     func(n ast.Node) bool { return nodeCalls(info, n, fitness.Obj) != nil || nodeCalls(info, n, bagAdd.Obj) != nil },
+			Gate: func(n ast.Node) bool {
+				return nodeCalls(info, n, fitness.Obj) != nil || nodeCalls(info, n, bagAdd.Obj) != nil
+			},
 			EdgeGate: func(b *cfg.Block, succ int) bool {
 				cond := condOf(b)
 				return cond != nil && impliesDischarge(info, cond, succ == 0, unknownVar, nil)
@@ -154,7 +156,9 @@ func c10R1b(c *Ctx, r *Report) {
 						other = objOf(info, cl.Args[4])
 						return true
 					},
-					Target: func(nd ast.Node) bool { return nodeCallsPred(nd, func(x *ast.CallExpr) bool { return x == call }) != nil },
+					Target: func(nd ast.Node) bool {
+						return nodeCallsPred(nd, func(x *ast.CallExpr) bool { return x == call }) != nil
+					},
 				})
 				return len(hits) == 0, other
 			}
